@@ -57,8 +57,12 @@ def custom_sqls(x: str, y: str):
     ]
 
 
+M_P2 = ["1", "1/2", "1/4", "1/8"]
+U_P2 = ["1", "1/2", "1/4", "1/8", "1/16"]
+
+
 def gen_comparison(rng, x: str, others: list[str], mode: str, boundary: bool, allow_inf: bool):
-    mvals, uvals = (M_T, U_T) if mode == "T" else (M_X, U_X)
+    mvals, uvals = (M_T, U_T) if mode == "T" else (M_P2, U_P2) if mode == "P2" else (M_X, U_X)
     route = rng.choice(["custom", "custom", "custom", "lib_exact", "lib_lev", "dict"])
     levels = []
     y = rng.choice(others) if others else x
@@ -87,7 +91,7 @@ def gen_comparison(rng, x: str, others: list[str], mode: str, boundary: bool, al
             pos = 0 if rng.random() < 0.85 else rng.randint(0, len(kinds))
             kinds.insert(pos, ("null", None))
         kinds.append(("else", None))
-    has_tf = rng.random() < 0.55
+    has_tf = rng.random() < 0.55 and mode != "P2"
     has_exact = any(k == "exact" or (k == "custom" and a[1] == x) for k, a in kinds)
     for kind, arg in kinds:
         lv = {"kind": kind, "col": x, "arg": None, "sql": None, "m": rng.choice(mvals), "u": rng.choice(uvals),
@@ -147,7 +151,7 @@ def gen_spec(rng, mode="X", boundary=False, allow_inf=True, ncmp=None):
     cols = rng.sample(COLS, ncmp)
     comps = [gen_comparison(rng, x, [c for c in COLS if c != x], mode, boundary, allow_inf) for x in cols]
     tf_cols = sorted({lv["tf_col"] for c in comps for lv in c["levels"] if lv["tf_col"]})
-    return {"prior": rng.choice(PRIOR_T if mode == "T" else PRIOR_X), "link_type": "dedupe_only",
+    return {"prior": "1/2" if mode == "P2" else rng.choice(PRIOR_T if mode == "T" else PRIOR_X), "link_type": "dedupe_only",
             "tf_cols": tf_cols, "comparisons": comps, "boundary": boundary, "mode": mode}
 
 
